@@ -409,8 +409,9 @@ func TestVFC11Authenticated(t *testing.T) {
 
 		before := vfTakeSnapshot(a)
 		// 1. a method no route declares
-		bogus := rapid.SampledFrom([]string{"BOGUS", "PATCH", "OPTIONS", "HEAD", "TRACE"}).Draw(t, "bogus_method")
-		r := vfNewRequest(vfShape{Method: bogus}, route)
+		// (a method is a case-sensitive token: "post" is not POST)
+		bogus := rapid.SampledFrom([]string{"BOGUS", "PATCH", "OPTIONS", "HEAD", "TRACE", "post", "Post", "put", "pUT", "delete"}).Draw(t, "bogus_method")
+		r := vfNewRequest(vfShape{Method: bogus, CType: "text/plain", Body: "name=x&enabled=true"}, route)
 		auth(r)
 		rec := httptest.NewRecorder()
 		h.ServeHTTP(rec, r)
